@@ -724,6 +724,8 @@ class LOC(Custom):
             return (0, 0, 0, rng.choice([0, 1]), rng.below(2))
         if r == 2:
             return (maxdeg - 1, 59, 59, 999, rng.below(2))
+        if r == 3 and rng.chance(1, 6):
+            return (maxdeg, rng.below(60), rng.below(60), rng.below(1000), rng.below(2))
         return (rng.below(maxdeg), rng.below(60), rng.below(60), rng.below(1000), rng.below(2))
 
     def size(self, rng):
@@ -1176,8 +1178,8 @@ GENERIC = Spec([("data", rest)])
 
 # per-type proof status reported in the evidence (see lean/Props/C02.lean)
 CUSTOM_STATUS = {
-    (ANY, 29): "proved (object-level view: loc_fixpoint; round trip for canonical sizes/coordinates)",
-    (ANY, 41): "modelled (round trip proved for canonical option values; fixed-point clause refuted at a witness = known finding; tie + oracle)",
+    (ANY, 29): "proved (loc_fixpoint; round trip for the values the decoder accepts back; constructor gap at 90/180 degrees = known finding, refuted at the witness)",
+    (ANY, 41): "proved (opt_fixpoint over every decodable option list; the as-shipped EDE variant is retained and refuted)",
     (1, 42): "proved (apl_fixpoint: the encoding is a fixed point; stored address modulo trailing zero octets)",
     (1, 64): "proved (svcb_fixpoint)",
     (1, 65): "proved (svcb_fixpoint)",
@@ -1300,6 +1302,9 @@ def _eval_case(ctx: Ctx, case: dict):
             _, cur, end_ok = impl_decode(c, t, w, 0, len(w), origin)
         except dns.exception.DNSException as e:
             sig = f"C02/wire-roundtrip/decode-rejects-own-encoding/{sigt}"
+            if key == (ANY, 29) and _loc_over_limit(tree):
+                # narrow trigger class of a recorded defect: 90 (180) degrees plus minutes/seconds passes the constructor
+                sig += "/coordinate-beyond-limit-at-max-degrees"
             ctx.fail(sig, f"from_wire(to_wire(v)) raised {type(e).__name__} for {tname} {case['tree']}", rep)
             return
         except Exception as e:  # noqa: BLE001
@@ -1416,6 +1421,14 @@ def _eval_case(ctx: Ctx, case: dict):
             ctx.fail(f"C02/fixpoint/hash-differs/{sigt}", f"{tname} {rdata.hex()}", rep)
     else:
         raise ValueError(k)
+
+
+def _loc_over_limit(tree):
+    try:
+        _, _, _, lat, lon, _ = tree
+        return (lat[0] == 90 and any(lat[1:4])) or (lon[0] == 180 and any(lon[1:4]))
+    except Exception:  # noqa: BLE001
+        return False
 
 
 # ------------------------------------------------------------------------------------------------
@@ -1634,7 +1647,7 @@ def impl_of_op(op: str):
 
 LEVEL = {
     "text": "Lean 4 theorems over a schema language for RDATA codecs (executable model of dns/wirebase.Parser and of every dns/rdtypes/** to_wire/from_wire_parser pair incl. the constructors' validation): generic enc_dec and dec_fixpoint proved by induction on schemas, well-formedness of every table entry by decide, coverage of the implemented (class,type) list regenerated from the code. Tied to the code by a two-direction correspondence check on every implemented type plus a direct round-trip / fixed-point / exact-consumption oracle on all types and unknown type codes.",
-    "note": "Trusted: Lean kernel + propext/Classical.choice/Quot.sound; statements in lean/Props/C02.lean; the correspondence harness and its generators; harness/extract_C02.py. 64 of 69 types are plain schemas covered by the generic theorems; LOC, APL, SVCB, HTTPS have an object-level view with their own fixed-point theorems; OPT (EDNS options) is modelled and tied, its round trip is proved for canonical option values and its fixed-point clause is refuted at a witness (recorded finding: EDE text ending in NUL). Per-type status is in the evidence (per_type_status).",
+    "note": "Trusted: Lean kernel + propext/Classical.choice/Quot.sound; statements in lean/Props/C02.lean; the correspondence harness and its generators; harness/extract_C02.py. All 69 implemented types are proved: 64 plain schemas by the generic theorems (type_codec, with named instances and a concrete valid value for each irregular codec), LOC, OPT, APL, SVCB, HTTPS through their object-level views (loc_/opt_/apl_/svcb_fixpoint), and all_types_fixpoint / every_pair_fixpoint state the fixed-point clause for every table entry and every (class, type) pair. Recorded: LOC constructor accepts 90/180 degrees plus minutes (refuted at a witness); the EDE trailing-NUL defect is repaired in the tree, its as-shipped variant is retained in the model and refuted. Per-type status is in the evidence (per_type_status).",
     "technique": "Lean 4 proof (induction over a deep-embedded schema language, finite table by decide) + model-vs-implementation correspondence",
     "design_ref": "DESIGN.md §7 C02",
 }
